@@ -122,6 +122,14 @@ rewrite quad_sum; apply: eq_bigr => k _; rewrite (mapped_rule_exact _ _ Hm) //.
 by have := ltn_ord k => Hk; rewrite -ltnS; apply: leq_trans Hk Hs.
 Qed.
 
+(* additivity over adjacent intervals for every exactly integrated polynomial, limits in any order *)
+Corollary quad_additive_poly d a b c (p : {poly F}) : moments_exact d -> (size p <= d.+1)%N ->
+  Q a b (fun t => p.[t]) + Q b c (fun t => p.[t]) = Q a c (fun t => p.[t]).
+Proof.
+move=> Hm Hs; rewrite !(mapped_rule_exact_poly _ _ Hm Hs) -big_split /=; apply: eq_bigr => k _.
+by rewrite -mulrDr -mulrDl; congr (_ * (_ / _)); ring.
+Qed.
+
 (* ---- gradients ---- *)
 Variable D : derivation F.
 
